@@ -57,6 +57,11 @@ CHECKS = {
         text="Theorems (Props/C11.v, no axioms): closure decides reachability; scc_spec = maximal mutually-reachable sets with >=2 members, pairwise disjoint, each once; same-cycle <=> mutual reachability; check_sccs accepts only the spec (all graphs, all outputs); Tarjan model = spec for every digraph on <=4 modules x 6 iteration orders (bounded); for all graphs the model's components have >=2 modules and are pairwise disjoint, count = #components, modules-in-cycles = sum of sizes, severity = documented table (partial). Every run: all digraphs <=4 modules, sampled (thorough: all 2^20) 5-module digraphs, random graphs to 60 modules and generated Python projects are run through the real detector/CLI and compared with the spec, the proved checker and the model.",
         note="Full Tarjan correctness for >4 modules and fuel sufficiency are not proved (bounded + partial + certificate instead). Severity spec includes the documented fan-in>10 => critical rule. Order of the cycle list is not compared. Hand-written model; correspondence is sampled beyond 5 modules.",
         design="5 C11"),
+    "C12": dict(
+        technique="Coq model of ModuleAnalyzer / ReExportResolver / AddDependency / coupling metrics / calculateMaxDepth against a CPython import-resolution spec (Deps/PyImport.v); metric theorems for all inputs; import-graph agreement refuted by 4 witnesses and proved on a bounded domain of 19 068 projects under decidable wf predicates; spec tied to python3 by executing every generated statement; implementation tied by hook and CLI JSON",
+        text="Props/C12.v (no axioms): fan_in = in_degree, fan_out = out_degree, instability = Ce/(Ca+Ce), distance = |A+I-1| in [0,1], max depth = longest chain on acyclic graphs, resolution of a file independent of other files; C12_edges_bounded; C12_edges_refuted_* (F31-F34). Each run: ~330 generated projects (positions x guards, import-form catalogue x importer on same-named modules, random layouts, chains/cycles): pyscn DependencyMatrix/ModuleMetrics/MaxDepth vs edges_py and vs the model, two file orders, metrics on the implementation's own graph, ~5 000 statements cross-checked against python3, 9 CLI JSON reports.",
+        note="Full edge equality is false on the tree (open C12-F31..F34, matched only when impl = model); general edge theorem not proved (bounded only); F5, F17, F29, F30 repaired by fix: commits; assumes a root marker file, __init__.py in every package, imported names exist, no wildcard imports; floats compared exactly (instability) or within 1e-12 (distance).",
+        design="5 C12"),
     "C13": dict(
         technique="Coq proof over a class-level syntax (84 positions) that the CBO model (walk over the parser.Node fields regenerated from cbo.go) equals the spec set on all positions, set-semantics laws (idempotence, permutation, additivity), risk table; refutations for the two open input classes; position x import-form matrix and metamorphic runs against the tagged driver and the CLI",
         text="Props/C13.v (no axioms): C13_positions_all_visited, C13_exact_partial (all positions and import forms except module-qualified references and a generic as union operand, both refuted with witnesses), C13_count_distinct_not_self, C13_perm_invariant, C13_idempotent, C13_add_unrelated, C13_additive, C13_risk_table. Every run: 78 positions x 10 import forms, annotation shapes, multiplicities, threshold pairs, built-in table vs Python's own builtins, metamorphic variants, find-path probes tying the position table to ast_builder.go, CLI with show_zeros.",
